@@ -34,7 +34,8 @@ fn parse_if(it: &mut LexIterator) -> ParseResult {
     let el = if it.peek_if(&|lex| lex.token == Token::Else) {
         it.parse_if(&Token::Else, &parse_expr_or_stmt, "if else branch", start)?
     } else if it.peek_if_followed_by(&Token::NL, &Token::Else) {
-        it.eat(&Token::NL, "if else branch")?;
+        // Blank and comment lines may separate the branches.
+        it.eat_while(&Token::NL);
         it.parse_if(&Token::Else, &parse_expr_or_stmt, "if else branch", start)?
     } else {
         None
@@ -63,11 +64,15 @@ fn parse_match(it: &mut LexIterator) -> ParseResult {
 }
 
 pub fn parse_match_cases(it: &mut LexIterator) -> ParseResult<Vec<AST>> {
+    // Blank and comment lines may precede the first arm, before or after the indentation.
+    it.eat_while(&Token::NL);
     let start = it.eat(&Token::Indent, "match cases")?;
+    it.eat_while(&Token::NL);
     let mut cases = vec![];
     it.peek_while_not_token(&Token::Dedent, &mut |it, _| {
         cases.push(*it.parse(&parse_match_case, "match case", start)?);
-        it.eat_if(&Token::NL);
+        // Blank and comment lines may separate the arms.
+        it.eat_while(&Token::NL);
         Ok(())
     })?;
 
